@@ -166,23 +166,23 @@ func (s *session) evalBool(term string) bool { return s.eval(term) == "true" }
 // object-graph builder
 
 type rbuilder struct {
-	g       *Gen
-	r       *UnitResult
-	s       *session
-	fn      *ssa.Function
-	pkg     *types.Package
-	declared map[string]bool // SMT constants available in the query
-	imports map[string]string // import path -> alias
-	objs    map[string]string // type#ref -> Go variable
-	stmts   []string
-	strs    map[string]string // abstract string value -> Go literal
-	lits    map[string]string // abstract string value -> literal text, for values equal to a source literal
-	nvar    int
-	nobj    int
-	candStr []string // string-sorted terms seen (candidate map keys)
-	candInt []string
-	chans   []string // "var|elemType" of channels created
-	summary map[string]any
+	g        *Gen
+	r        *UnitResult
+	s        *session
+	fn       *ssa.Function
+	pkg      *types.Package
+	declared map[string]bool   // SMT constants available in the query
+	imports  map[string]string // import path -> alias
+	objs     map[string]string // type#ref -> Go variable
+	stmts    []string
+	strs     map[string]string // abstract string value -> Go literal
+	lits     map[string]string // abstract string value -> literal text, for values equal to a source literal
+	nvar     int
+	nobj     int
+	candStr  []string // string-sorted terms seen (candidate map keys)
+	candInt  []string
+	chans    []string // "var|elemType" of channels created
+	summary  map[string]any
 }
 
 func (b *rbuilder) alias(path, name string) string {
